@@ -114,6 +114,24 @@ def judge(name, d):
         if t - rel > REL:
             return ("queue-close-does-not-wake-all", f"a blocked consumer returned {t - rel:.1f} ms after put(); close()", False)
         return None
+    if parts[0] == "until_empty":
+        how = parts[1]
+        want = "1" if how == "peer" else "0"
+        if blocked != 1:
+            return ("queue-timed-wait-returns-early", f"get_until(now + 3 s) on an empty open queue returned {ret} after {t:.1f} ms although nothing had released it", True)
+        if ret == "none":
+            return ("queue-close-does-not-end-wait" if how == "close" else "queue-peer-release-late",
+                    f"a getter blocked in get_until(now + 3 s) was still blocked long after the releasing {how}", True)
+        if ret != want:
+            return ("queue-wrong-result-after-release", f"get_until released by {how} returned {ret}", True)
+        if t - rel > 1000.0:
+            # far beyond any scheduling delay: the wait was not ended by the release but by its own deadline
+            return ("queue-close-does-not-end-wait" if how == "close" else "queue-peer-release-late",
+                    f"a getter blocked in get_until(now + 3 s) returned {t - rel:.1f} ms after the releasing {how} (it sat out its deadline)", True)
+        if t - rel > REL:
+            return ("queue-close-does-not-end-wait" if how == "close" else "queue-peer-release-late",
+                    f"a getter blocked in get_until returned {t - rel:.1f} ms after the releasing {how}", False)
+        return None
     if parts[0] == "close_race_put":
         if ret == "none":
             return ("queue-close-does-not-wake-all", "a producer blocked on a full queue stayed blocked after get(); close()", True)
